@@ -363,6 +363,9 @@ struct AsmProg : ProgBase<x86::Assembler> {
     Label L_data = a.new_label(); NEED("new_label", L_data.is_valid());
     Label L_fwd[6];
     for (int i = 0; i < kFwd; i++) { L_fwd[i] = a.new_label(); NEED("new_label", L_fwd[i].is_valid()); }
+    // the very first thing emitted is larger than the buffer a previous (alt) program leaves behind: on a recycled holder the
+    // text buffer has to grow while it is still empty
+    if (!alt) { static const std::vector<uint8_t> blob(20000, 0xCC); S("embed", a.embed(blob.data(), blob.size())); }
     S("bind", a.bind(L_entry));
     S("bind", a.bind(L_back));
     for (int i = 0; i < kFwd; i++) {
